@@ -452,3 +452,61 @@ def _prefix_ob(kind):
 
 _prefix_ob("function")
 _prefix_ob("subroutine")
+
+
+
+# ---------------------------------------------------------------------------------------
+# O2d: a separate attribute statement naming several variables: each variable gets its own array spec, a bare name gets none
+# ---------------------------------------------------------------------------------------
+ATTR_STMTS = [("allocatable :: work(:,:), scratch", {"work": "real, allocatable, (:,:)", "scratch": "real, allocatable"}),
+              ("allocatable :: scratch, work(:,:)", {"work": "real, allocatable, (:,:)", "scratch": "real, allocatable"}),
+              ("ALLOCATABLE WORK(:,:), SCRATCH", {"work": "real, allocatable, (:,:)", "scratch": "real, allocatable"}),
+              ("pointer :: work(:), scratch", {"work": "real, pointer, (:)", "scratch": "real, pointer"}),
+              ("dimension work(3), scratch(2,2)", {"work": "real, dimension(3)", "scratch": "real, dimension(2,2)"}),
+              ("allocatable :: work(:)", {"work": "real, allocatable, (:)", "scratch": "real"})]
+
+
+def _attr_observe(f):
+    m = f.modules[0]
+    return {str(v.name).lower(): (v.full_declaration or "").lower().replace(" ", "") for v in m.variables}
+
+
+def replay_attr_stmt(w):
+    f = parserh.parse_concrete(["module m", "real :: work, scratch", w["stmt"], "end module m"])
+    got = _attr_observe(f)
+    want = {k: v.lower().replace(" ", "") for k, v in w["expected"].items()}
+    return got != want, {"statement": w["stmt"], "ford": got, "declared": want}
+
+
+@obligation("C18", "O2d.multi-name-attribute-statement", engine="SX(CV)", timeout=600)
+def attr_stmt(ctx):
+    """`real :: work, scratch` followed by a symbolic ALLOCATABLE / POINTER / DIMENSION statement naming both: the declaration shown for
+    each variable carries exactly its own array spec"""
+    import ford.sourceform as sf
+
+    ctx.encode_fn(sf.FortranCodeUnit.process_attribs)
+    ctx.encode_fn(sf.FortranContainer.__init__)
+    ctx.bounds.update({"statements": [s_[0] for s_ in ATTR_STMTS]})
+
+    def h(E):
+        st = CV.choice(E, "stmt", ATTR_STMTS)
+        E.e.snapshot = lambda m: {"stmt": choice.value_in_model(m, st)[0], "expected": choice.value_in_model(m, st)[1]}
+        got = parserh.parse(["module m", "real :: work, scratch", st[0], "end module m"], post=_attr_observe)
+        E.reachable("parsed")
+        for name in ("work", "scratch"):
+            E.require(choice.apply(lambda g, w_, name=name: g == w_[name].lower().replace(" ", ""), got.get(name), st[1]),
+                      f"{name}: the declaration shown differs from the source (array spec of another name?)")
+
+    E = sym.Engine(ctx, max_paths=2000, incremental=True)
+    found = E.explore(h)
+    seen = set()
+    for (label, m, pc), snap in zip(found, E.snapshots):
+        if label in seen or not snap:
+            continue
+        seen.add(label)
+        ctx.report(label, snap, replay_attr_stmt)
+    if E.reached.get("parsed"):
+        ctx.twins += 1
+    else:
+        ctx.inconclusive.append("vacuity: parser never completed")
+    ctx.sample({"paths": E.paths})
